@@ -124,7 +124,7 @@ namespace occa {
     const udim_t alignedBytes = ((bytes + alignment - 1) / alignment) * alignment;
 
     /*If pool is too small, resize and put the new reservation at the end*/
-    if (reserved + bytes > size) {
+    if (reserved + alignedBytes > size) {
       resize(reserved + alignedBytes);
       return slice(reserved, bytes);
     }
@@ -145,7 +145,7 @@ namespace occa {
       offset = std::max(offset, mhi); /*Shift the potential region*/
     }
 
-    if (offset + bytes <= size) {
+    if (offset + alignedBytes <= size) {
       return slice(offset, bytes);
     } else {
       /*
